@@ -157,6 +157,9 @@ func drawScenario(rng *rand.Rand, family string, quick bool, forceLate ...bool) 
 		sc.LeakEpochs[1] = sc.LeakEpochs[0] + 6 + rng.IntN(5)
 		sc.Epochs = sc.LeakEpochs[1] + 4
 		sc.POps = 0.1
+		if rng.IntN(3) == 0 {
+			sc.ForkEpochs = [4]uint64{ff, ff, ff, ff} // the phase0 leak (its own penalty quotient and pending-attestation accounting)
+		}
 		if !quick && rng.IntN(3) == 0 { // long leak: inactivity scores beyond one byte, ejections
 			sc.LeakEpochs[1] = sc.LeakEpochs[0] + 70
 			sc.Epochs = sc.LeakEpochs[1] + 3
@@ -256,6 +259,8 @@ type chainHooks struct {
 	afterStep func(c *sim.Chain, where string, isBlock bool, built *sim.Built) bool
 	// beforeBlock may veto/replace applying the block (used by C03/C18); return true if it handled the block itself.
 	beforeBlock func(c *sim.Chain, built *sim.Built) bool
+	// onSlashedProposer is called for slots whose proposer is slashed (no valid block exists there).
+	onSlashedProposer func(c *sim.Chain, slot uint64)
 }
 
 // runChain runs one scenario; mismatches are reported through report(kind, what, detail). Returns false if it stopped early.
@@ -335,6 +340,9 @@ func runChain(b *fw.B, sc scenario, hooks chainHooks, report func(m *sim.Mismatc
 		built, err := c.BuildBlock(slot, plan)
 		if err == sim.ErrProposerSlashed {
 			b.Inc("slots_with_slashed_proposer")
+			if hooks.onSlashedProposer != nil {
+				hooks.onSlashedProposer(c, slot)
+			}
 			continue
 		}
 		if err != nil {
